@@ -163,6 +163,17 @@ def is_integer(x):
     return float(x).is_integer()
 
 
+def dict_put(d, k, v):
+    r = dict(d)
+    r[k] = v
+    return r
+
+
+def loop_seq(k):
+    """Native meaning is not needed (used in ghost code of proofs only)."""
+    raise NotImplementedError
+
+
 def seq_mean(x):
     import numpy as np
     return float(np.mean(np.asarray(list(x), dtype=float)))
